@@ -423,7 +423,7 @@ Fixpoint get_content (v : val) : dres :=
         | r => DSpec r
         end
       end
-  | VL [VI 4; VI lk; VL items] =>
+  | VL [VI 4; VI lk; VL pre; VL items] =>
       match (fix go (l : list val) : option (list (option (list Z) * list content)) + dres :=
                match l with
                | [] => inl (Some [])
@@ -441,7 +441,7 @@ Fixpoint get_content (v : val) : dres :=
                    end
                | _ => inr DBad
                end) items with
-      | inl (Some its) => DOk (CList lk its)
+      | inl (Some its) => match mapM getB pre with Some pre' => DOk (CList lk pre' its) | None => DBad end
       | inr e => e
       | _ => DBad
       end
